@@ -10,6 +10,7 @@ import (
 	"io"
 	"math/big"
 	"net"
+	"os"
 	"sync"
 	"time"
 
@@ -101,6 +102,9 @@ func (c *SimConn) duplexRead(p []byte) (int, error) {
 		c.rec("read-wait", "")
 		c.Quiesce = append(c.Quiesce, len(c.Out))
 		c.rt.K.Block(c.task, "read-wait", c.c2sReady)
+	}
+	if c.expired(c.rdl, "read") {
+		return 0, os.ErrDeadlineExceeded
 	}
 	if len(c.c2s) == 0 {
 		c.AfterEnd++
@@ -230,6 +234,7 @@ func runTLSClient(rt *Runtime, cs *connState, task int) {
 	note("handshake", fmt.Sprintf("ok version=%x", conn.ConnectionState().Version))
 	cs.TLSUp = true
 	for si, st := range cc.Steps {
+		cs.SimConn.idle(st.IdleMs)
 		var buf []byte
 		for i := range st.Msgs {
 			buf = append(buf, st.Msgs[i].Bytes()...)
